@@ -29,6 +29,7 @@ type HeapLayer struct {
 	w       int
 	depth   int
 	seq     int // lHavocAbove: region sequence number at the havoc point
+	tid     uint32 // lHavocAbove: term-id watermark at the havoc point
 }
 
 type Region struct {
@@ -36,6 +37,7 @@ type Region struct {
 	size  *Term
 	fresh bool // allocated during this execution (disjoint from everything registered earlier)
 	seq   int
+	global bool      // package-level variable or string constant (distinct objects)
 	T     types.Type // allocation type of a local (Alloc); nil otherwise
 	n     uint64
 }
@@ -55,8 +57,16 @@ func (e *Exec) distinctRoots(a, b *Term) bool {
 	}
 	ga, oka := e.regions[ra]
 	gb, okb := e.regions[rb]
+	// a pointer value read from the heap as it was on entry denotes an object that existed
+	// on entry: it cannot point into memory allocated since
+	if oka && ga.fresh && e.fromInitialHeap(rb) || okb && gb.fresh && e.fromInitialHeap(ra) {
+		return true
+	}
 	if !oka || !okb {
 		return false
+	}
+	if ga.global && gb.global {
+		return true
 	}
 	return ga.fresh || gb.fresh
 }
@@ -138,6 +148,10 @@ func (e *Exec) read(h *HeapLayer, a *Term) *Term {
 			ra := addrRoot(a)
 			if g, ok := e.regions[ra]; ok && g.seq < h.seq {
 				// region registered before the havoc point lies below it
+				cond = c.False
+			} else if a.id < h.tid {
+				// an address that was already in hand before the havoc point denotes an object
+				// that existed then (Go memory safety), i.e. one below the old frontier
 				cond = c.False
 			} else {
 				cond = c.Ule(h.addr, a)
